@@ -125,7 +125,7 @@ func (f *Func) callGraph(args *argBuilder) (
 			}
 
 			v2, ok := raw2.(*typedOutputVertex)
-			if !ok || !v2.Type.Implements(v.Type) {
+			if !ok || v2.Type == v.Type || !v2.Type.Implements(v.Type) {
 				continue
 			}
 
